@@ -7,6 +7,7 @@ EXPLANATION = (
 
 
 def check(ctx, prog):
+    model.rule_posted_kept(ctx, prog)  # every posted constraint stays posted (who may write the list of constraints)
     search.rule_resume(ctx, prog)
     search.rule_sentinel(ctx, prog)  # scope: the answer of a variable heuristic is a decision domain
     search.rule_solve_one(ctx, prog, want=("R-SOLUTION", "R-HANDOVER"))
